@@ -232,6 +232,34 @@ STATEMENT_FORMS = {
 }
 
 
+# lexical transformations that must not change what a program does (applied to the programs of ALL generators, see gencorpus)
+def _no_multiline_strings(text):
+    return all(l.count('"') % 2 == 0 for l in text.split("\n"))
+
+
+def transform(text, how):
+    lines = text.split("\n")
+    if how == "crlf":
+        return "\r\n".join(lines)
+    if how == "comments":
+        out = ["### generated", "block comment ###"]
+        for k, l in enumerate(lines):
+            if k % 4 == 0:
+                out.append("# note " + str(k))
+            out.append(l + (" # t" if l.strip() else ""))
+        return "\n".join(out)
+    if how == "spaced":
+        out = []
+        for l in lines:
+            out.append("  " + l + ("  \t" if l.strip() else ""))
+            out.append("")
+        return "\n".join(out)
+    raise ValueError(how)
+
+
+TRANSFORMS = ["crlf", "comments", "spaced"]
+
+
 def ident_names():
     import os
     import re
@@ -260,7 +288,9 @@ class C01(Check):
             "optional, const, list, first token after an expression line, unpack target, captured variable, argument / return) x every identifier-shaped word "
             "of grammar.pest extended by a letter, underscore or digit; the program must behave as with a neutral name.  Statement forms: 21 spellings / layouts of the core statements the skeleton printer never "
             "produces (value-less return in 9 positions, comments, CRLF, else on the next line, empty and one-line blocks, several statements per line, "
-            "blank / indented lines, trailing blanks, no final newline, all from-loop headers, assert and call spellings).  State = the reference interpreter's configuration; every program is one model trace replayed on the implementation.")
+            "blank / indented lines, trailing blanks, no final newline, all from-loop headers, assert and call spellings).  Lexical transformations: every program of the other checks' generators (closures, objects, containers, "
+            "optionals, failure chains, module graphs, expression trees) re-run with CR LF line ends / interleaved comments / extra blanks and empty lines; "
+            "the output must not change.  State = the reference interpreter's configuration; every program is one model trace replayed on the implementation.")
     assumptions = ["variable names are distinct per function (shadowing across functions belongs to C07)",
                    "any non-zero exit counts as the prescribed failure (its delivery is C17's business)",
                    "reference interpreter mcheck/lang/refint.py is the semantics (validated against the unchanged tree by this very check)"]
@@ -273,12 +303,14 @@ class C01(Check):
             return [("L0-depth<=2-default", L0(2)), ("L0b-depth<=2-module+recursion", L0b()),
                     ("Li-identifier-spellings", [("ident", r, n) for n in ident_names() for r in IDENT_ROLES]),
                     ("Ls-statement-forms", [("form", k) for k in STATEMENT_FORMS]),
+                    ("Lm-lexical-transformations-of-the-generated-corpus", self.meta_cases(tier)),
                     ("Lp-depth<=1-single-deviation-minimal-parentheses", L1(1, ("fn~min",))),
                     ("L2-spines<=4", L2(4)), ("L3q-pairs-of-compounds", L3q()),
                     ("L1-depth<=2-single-deviation(no call/store/defcall leaves)", L1(2, skip=("call", "store", "defcall"), core_conds_beyond_depth1=True))]
         return [("L0-depth<=3-default", L0(3)), ("L0b-depth<=2-module+recursion", L0b()),
                 ("Li-identifier-spellings", [("ident", r, n) for n in ident_names() for r in IDENT_ROLES]),
                 ("Ls-statement-forms", [("form", k) for k in STATEMENT_FORMS]),
+                ("Lm-lexical-transformations-of-the-generated-corpus", self.meta_cases(tier)),
                 ("L1-depth<=2-single-deviation", L1(2, ("fn", "module", "rec", "fn~min"))), ("L3-pairs", L3()),
                 ("L2-spines<=5", L2(5)), ("L6-long-sequences", L6_long()), ("L5a-depth<=2-double-deviation", L5_double(2)),
                 ("L5b-depth<=3-single-deviation", L1(3)), ("L4-depth<=4-default", L0(4))]
@@ -288,6 +320,8 @@ class C01(Check):
             return {"identifier": case[2], "role": case[1]}
         if case[0] == "form":
             return {"statement_form": case[1]}
+        if case[0] == "meta":
+            return {"corpus_program": case[1], "transformation": case[2]}
         return {"variant": case[0], "shape": repr(case[1])}
 
     def run_ident(self, case):
@@ -307,6 +341,34 @@ class C01(Check):
                          "detail": {"files": {"x.ms": src}, "res": res.brief(), "expected_lines": exp}})
         return {"outcome": "ident-ok" + ("-DIFF" if viol else ""), "viol": viol, "nontrivial": True, "tags": ["ident", f"role-{role}"]}
 
+    def meta_cases(self, tier):
+        from ..lang import gencorpus
+        return [("meta", nm, t) for nm in gencorpus.names(tier) for t in TRANSFORMS]
+
+    def run_meta(self, case):
+        """differential: the program of another generator before and after a transformation that only touches line ends, comments and blanks"""
+        from ..lang import gencorpus
+        _, nm, how = case
+        files = gencorpus.get(nm)
+        if not all(_no_multiline_strings(t) for t in files.values()):
+            return {"outcome": "meta-skipped-multiline-string", "nontrivial": False}
+        entry = "main.ms" if "main.ms" in files else ("x.ms" if "x.ms" in files else sorted(files)[0])
+        d0 = driver.fresh_dir()
+        driver.write_files(d0, files)
+        r0 = driver.run(["run", entry, "-q"], d0, timeout=20)
+        files2 = {k: (transform(v, how) if k.endswith(".ms") else v) for k, v in files.items()}
+        d1 = driver.fresh_dir()
+        driver.write_files(d1, files2)
+        r1 = driver.run(["run", entry, "-q"], d1, timeout=20)
+        viol = []
+        same = r0.exit == r1.exit and r0.out == r1.out if r0.exit == 0 else (r1.exit != 0 and r0.lines()[:3] == r1.lines()[:3] or
+                                                                            ("Did not compile" in r0.err) == ("Did not compile" in r1.err) and r1.exit != 0)
+        if not same:
+            viol.append({"sig": {"kind": "lexical-transformation", "how": how, "generator": nm.split(":")[0]},
+                         "what": f"{nm} after `{how}`: exit {r0.exit} -> {r1.exit}; output {r0.out[-120:]!r} -> {(r1.out + r1.err)[-200:]!r}",
+                         "detail": {"files": {"original/" + k: v for k, v in files.items()} | files2, "original": r0.brief(), "transformed": r1.brief()}})
+        return {"outcome": "meta-ok" + ("-DIFF" if viol else ""), "viol": viol, "nontrivial": True, "tags": ["meta", f"meta-{how}"]}
+
     def run_form(self, case):
         src, exp = STATEMENT_FORMS[case[1]]
         res = driver.run_ms(src)
@@ -321,6 +383,8 @@ class C01(Check):
     def run_case(self, case):
         if case[0] == "form":
             return self.run_form(case)
+        if case[0] == "meta":
+            return self.run_meta(case)
         if case[0] == "ident":
             return self.run_ident(case)
         variant, shape = case
@@ -342,7 +406,7 @@ class C01(Check):
     def finish(self, stats, tier):
         errs = []
         for t in ["store", "defcall", "break", "continue", "return", "fault-div", "fault-assert" if tier == "thorough" else "fault-div", "elif",
-                  "while", "from", "fn~min", "ident", "form", "collide@nested", "collide@top", "anon@nested", "step", "step-expr", "step-call", "bounds-expr", "through", "module", "rec"]:
+                  "while", "from", "fn~min", "ident", "form", "meta-crlf", "meta-comments", "meta-spaced", "collide@nested", "collide@top", "anon@nested", "step", "step-expr", "step-call", "bounds-expr", "through", "module", "rec"]:
             if not stats["tags"].get(t):
                 errs.append(f"vacuity: construct {t} never explored")
         ok = stats["evaluations"] - stats["outcomes"].get("skipped-step-limit", 0)
